@@ -31,6 +31,10 @@ extern int mpt_stream_flush(MPT_STRUCT(stream) *stream)
 	
 	/* write data */
 	len = stream->_wd._state.done;
+	/* raw data outside of an unfinished message is final */
+	if (!stream->_wd._enc && !stream->_wd._state.scratch) {
+		len = stream->_wd.data.len;
+	}
 	if (!len) {
 		return stream->_wd.data.len ? 1 : 0;
 	}
@@ -81,7 +85,11 @@ extern int mpt_stream_flush(MPT_STRUCT(stream) *stream)
 	}
 	/* remove written data from queue */
 	mpt_queue_crop(&stream->_wd.data, 0, len);
-	stream->_wd._state.done -= len;
+	if (stream->_wd._state.done > len) {
+		stream->_wd._state.done -= len;
+	} else {
+		stream->_wd._state.done = 0;
+	}
 	
 	/* remaining data */
 	return stream->_wd.data.len ? 1 : 0;
